@@ -1,23 +1,102 @@
 from vp.api import Q, Mutant
 TITLE = "Lists and dequeues keep their contents and order"
 UNITS = ["parsec/class/list.h", "parsec/class/list_item.h", "parsec/class/dequeue.h", "parsec/class/fifo.h"]
-OUTSIDE = []
-ASSUMPTIONS = []
-BOUNDS = {}
-CLAIMED = False
+LH, LI, DQ, FF = UNITS
+OUTSIDE = ["lists longer than the bound (the step is inductive in the number of operations, not in the list length)",
+           "concurrent executions of the locked variants (linearizability under contention): only their sequential effect, the lock "
+           "being released afterwards and the try_pop behaviour when the lock is held by somebody else are decided here",
+           "PARSEC_DEBUG_PARANOID bookkeeping (refcount / belong_to), compiled out in the product build",
+           "direction of parsec_list_sort: the code sorts in NON-DECREASING comparison value ('natural order'), i.e. the reverse of the "
+           "non-increasing order that push_sorted/chain_sorted maintain and document; both in-tree callers re-insert through chain_sorted, "
+           "so this is recorded as an observation, the check asserts monotonicity in the implemented direction"]
+ASSUMPTIONS = ["caller contracts from the header comments: a pushed/chained item is not in the list; remove/add_before/add_after get a position that IS in the list "
+               "(or the ghost); push_sorted/chain_sorted/ring_push_sorted start from a list/ring in non-increasing priority order",
+               "detached items carry arbitrary stale next/prev pointers (symbolic)",
+               "queries whose name ends in 'c'/'cp' fix which static item object sits at which position (canonical naming): item objects are "
+               "interchangeable because the code compares item addresses only for equality; priorities, lengths and the operation's arguments stay symbolic",
+               "queries whose name ends in 'p' rewrite COMPARISON_VAL's pointer->uintptr_t->pointer round trip into the equivalent char* arithmetic on an "
+               "overlay copy of parsec_config_bottom.h (CBMC loses the target object through the integer cast: 3.5x cost); the others use the product's macro"]
+BOUNDS = {"quick": {"list length": "<=4 (basic operations, all front ends), <=3/4 push_sorted, 2+2 chain_sorted, <=4 sort", "ring length": "<=3", "priorities": "any int, ties included"},
+          "thorough": {"list length": "<=4 (+ chain_sorted 4+3, sort <=5)", "ring length": "<=3", "priorities": "any int"}}
 OPS = {"push_front": 1, "push_back": 2, "pop_front": 3, "pop_back": 4, "chain_front": 5, "chain_back": 6, "unchain": 7,
        "remove": 8, "add_before": 9, "add_after": 10, "contains": 11, "push_sorted": 12, "chain_sorted": 13, "sort": 14,
        "ring_push_sorted": 15, "ring_push": 16, "ring_merge": 17, "ring_chop": 18, "ring": 19, "is_empty": 20, "iter": 21}
 FL = {"nolock": 0, "lock": 1, "dq": 2, "dqnl": 3, "fifo": 4, "fifonl": 5, "try": 6, "dqtry": 7, "fifotry": 8}
+FLNAME = {"nolock": "parsec_list_nolock_*", "lock": "parsec_list_* (locked)", "dq": "parsec_dequeue_*", "dqnl": "parsec_dequeue_nolock_*",
+          "fifo": "parsec_fifo_*", "fifonl": "parsec_fifo_nolock_*", "try": "parsec_list_try_*", "dqtry": "parsec_dequeue_try_*", "fifotry": "parsec_fifo_try_*"}
+# which front ends exist for which operation
+FLAVOURS = {"push_front": ["nolock", "lock", "dq", "dqnl"], "push_back": ["nolock", "lock", "dq", "dqnl", "fifo", "fifonl"],
+            "pop_front": ["nolock", "lock", "try", "dq", "dqnl", "dqtry", "fifo", "fifonl", "fifotry"],
+            "pop_back": ["nolock", "lock", "try", "dq", "dqnl", "dqtry"],
+            "chain_front": ["nolock", "lock", "dq", "dqnl"], "chain_back": ["nolock", "lock", "dq", "dqnl", "fifo", "fifonl"],
+            "unchain": ["nolock", "lock"], "add_after": ["nolock", "lock"]}
+MS = "parsec_list_nolock_chain_sort_mergesort"
+# COMPARISON_VAL(it,off) is (*((int*)(((uintptr_t)(it))+off))) in parsec_config_bottom.h
+CVP = [("parsec/include/parsec/parsec_config_bottom.h", r"\(\*\(\(int\*\)\(\(\(uintptr_t\)\(it\)\)\+off\)\)\)", "(*((int*)(((char*)(it))+(off))))")]
 
 def queries(ctx):
     qs = []
-    def add(op, fl="nolock", ni=5, nl=4, nr=3, extra=(), name=None, unwind=None, **kw):
-        qs.append(Q(name or ("%s_%s" % (op, fl)), ["l.c"], defs=["OP=%d" % OPS[op], "FL=%d" % FL[fl], "NI=%d" % ni, "NL=%d" % nl, "NR=%d" % nr] + list(extra),
-                    unwind=unwind or (ni + 2), units=UNITS, object_bits=10, timeout=1800, info={}, **kw))
+    def add(op, fl="nolock", ni=5, nl=4, nr=3, suffix="", unwindset=(), tiers=("quick", "thorough"), timeout=1800, cvp=False, canon=False, slow=False):
+        defs = ["OP=%d" % OPS[op], "FL=%d" % FL[fl], "NI=%d" % ni, "NL=%d" % nl, "NR=%d" % nr] + (["CANON=1"] if canon else [])
+        qs.append(Q("%s_%s%s" % (op, fl, suffix), ["l.c"], defs=defs, unwind=ni + 2, unwindset=list(unwindset), units=UNITS, object_bits=10,
+                    timeout=timeout, tiers=tiers, patches=CVP if cvp else [], slow=slow,
+                    info={"symbolic": ["list length 0..%d" % nl, "argument ring length 1..%d (where the operation takes a ring)" % nr, "priorities: any int (ties)",
+                                       "position / item the operation is applied to", "stale pointers of detached items", "lock held by somebody else (try_* variants)"]
+                                      + ([] if canon else ["which of the %d static item objects sits where (any injective naming)" % ni]),
+                          "enumerated": ["operation kind", "front end (%s)" % FLNAME[fl]] + (["canonical item naming"] if canon else []),
+                          "stubs": ["none (headers are static inline; atomics are the product's __sync builtins)"],
+                          "patches": ["COMPARISON_VAL integer cast -> char* arithmetic (equivalent)"] if cvp else [],
+                          "bounds": {"items": ni, "list": nl, "ring": nr, "real loops": list(unwindset)},
+                          "functions": [FLNAME[fl].replace("*", op)]}))
+    def sort_uw(nl):
+        passes = 1 if nl <= 2 else 2 if nl <= 4 else 3
+        return [MS + ".3:%d" % (passes + 1), MS + ".2:%d" % ((nl + 1) // 2 + 1), MS + ".0:%d" % ((1 << (passes - 1)) + 1), MS + ".1:%d" % (nl + 1)]
+    def cs_uw(nl, nr):
+        return ["parsec_list_nolock_chain_sorted.0:%d" % (nl + nr + 1), "parsec_list_nolock_chain_sorted.1:%d" % (nr + 2)]
     for op in OPS:
-        add(op)
+        if op in ("push_sorted", "chain_sorted", "sort"):
+            continue
+        for fl in FLAVOURS.get(op, ["nolock"]):
+            add(op, fl)
+    T = ("thorough",)
+    # sorted insertion (stability), product macro, any naming
+    add("push_sorted", "nolock", ni=4, nl=3, suffix="_l3")
+    add("push_sorted", "lock", ni=4, nl=3, suffix="_l3")
+    add("push_sorted", "nolock", ni=5, nl=4, suffix="_l4cp", canon=True, cvp=True)
+    add("push_sorted", "nolock", ni=5, nl=4, suffix="_l4", tiers=T, timeout=3400)
+    add("chain_sorted", "nolock", ni=4, nl=2, nr=2, suffix="_l2r2c", unwindset=cs_uw(2, 2), canon=True)
+    add("chain_sorted", "lock", ni=4, nl=2, nr=2, suffix="_l2r2cp", unwindset=cs_uw(2, 2), canon=True, cvp=True)
+    add("chain_sorted", "nolock", ni=5, nl=1, nr=3, suffix="_l1r3cp", unwindset=cs_uw(1, 3), canon=True, cvp=True)
+    add("chain_sorted", "nolock", ni=4, nl=2, nr=2, suffix="_l2r2", unwindset=cs_uw(2, 2), tiers=T, timeout=3400)
+    add("chain_sorted", "nolock", ni=5, nl=3, nr=2, suffix="_l3r2cp", unwindset=cs_uw(3, 2), canon=True, cvp=True, tiers=T, timeout=3400)
+    add("chain_sorted", "nolock", ni=6, nl=3, nr=3, suffix="_l3r3cp", unwindset=cs_uw(3, 3), canon=True, cvp=True, tiers=T, timeout=3400)
+    add("chain_sorted", "nolock", ni=7, nl=4, nr=3, suffix="_l4r3cp", unwindset=cs_uw(4, 3), canon=True, cvp=True, tiers=T, timeout=3400)
+    add("sort", "nolock", ni=4, nl=4, suffix="_l4c", unwindset=sort_uw(4), canon=True)
+    add("sort", "lock", ni=3, nl=3, suffix="_l3cp", unwindset=sort_uw(3), canon=True, cvp=True)
+    add("sort", "nolock", ni=3, nl=3, suffix="_l3", unwindset=sort_uw(3), tiers=T, timeout=3400)
+    add("sort", "nolock", ni=4, nl=4, suffix="_l4", unwindset=sort_uw(4), tiers=T, timeout=3400)
+    add("sort", "nolock", ni=5, nl=5, suffix="_l5cp", unwindset=sort_uw(5), canon=True, cvp=True, tiers=T, timeout=3400)
     return qs
 
 def mutants(ctx):
-    return []
+    return [
+        Mutant("push_sorted_forward_before_equals", LH, "                if( A_HIGHER_PRIORITY_THAN_B(newel, pos, off) )\n                    break;",
+               "                if( !A_LOWER_PRIORITY_THAN_B(newel, pos, off) )\n                    break;", queries=["push_sorted_nolock_l3", "push_sorted_nolock_l4cp"]),
+        Mutant("push_sorted_backward_before_equals", LH, "                if( !A_HIGHER_PRIORITY_THAN_B(newel, pos, off) )", "                if( A_LOWER_PRIORITY_THAN_B(newel, pos, off) )",
+               queries=["push_sorted_nolock_l3", "push_sorted_nolock_l4cp"]),
+        Mutant("chain_sorted_never_restarts_from_head", LH, "        if( A_HIGHER_PRIORITY_THAN_B(newel, pos, off) )\n        {   /* this newel item is larger than the last insert,",
+               "        if( 0 )\n        {   /* this newel item is larger than the last insert,", queries=["chain_sorted_nolock_l2r2c"]),
+        Mutant("chain_sorted_before_equals", LH, "            if( A_HIGHER_PRIORITY_THAN_B(newel, pos, off) )\n                break;\n        }\n        parsec_list_nolock_add_before(list, pos, newel);",
+               "            if( !A_LOWER_PRIORITY_THAN_B(newel, pos, off) )\n                break;\n        }\n        parsec_list_nolock_add_before(list, pos, newel);", queries=["chain_sorted_nolock_l2r2c"]),
+        Mutant("mergesort_direction_flipped", LH, "                } else if (A_LOWER_PRIORITY_THAN_B(p, q, off)) {", "                } else if (A_HIGHER_PRIORITY_THAN_B(p, q, off)) {", queries=["sort_lock_l3cp"]),
+        Mutant("mergesort_back_links_not_maintained", LH, "                e->list_prev = tail;", "", queries=["sort_lock_l3cp"]),
+        Mutant("ring_push_sorted_returns_item_at_end", LI, "    if( success && (ring == position) ) return item;", "    if( ring == position ) return item;", queries=["ring_push_sorted_nolock"]),
+        Mutant("fifo_push_is_lifo", FF, "    parsec_list_push_back((parsec_list_t*)fifo, item);", "    parsec_list_push_front((parsec_list_t*)fifo, item);", queries=["push_back_fifo"]),
+        Mutant("dequeue_pop_back_pops_front", DQ, "    return parsec_list_pop_back((parsec_list_t*)dequeue);", "    return parsec_list_pop_front((parsec_list_t*)dequeue);", queries=["pop_back_dq"]),
+        Mutant("add_after_back_link_missing", LH, "    position->list_next->list_prev = newel;", "", queries=["add_after_nolock"]),
+        Mutant("pop_front_leaves_lock_taken", LH, "    parsec_list_item_t* item = parsec_list_nolock_pop_front(list);\n    parsec_list_unlock(list);\n    return item;",
+               "    parsec_list_item_t* item = parsec_list_nolock_pop_front(list);\n    if( NULL != item ) parsec_list_unlock(list);\n    return item;", queries=["pop_front_lock"]),
+    ]
+
+CLAIMED = False
+MANIFEST = {}
